@@ -14,6 +14,7 @@ import DialsModel.Model.WrapIO
 import DialsModel.Model.FlagSrcIO
 import DialsModel.Model.DecodeIO
 import DialsModel.Model.WatchIO
+import DialsModel.Model.EzIO
 
 open Dials Dials.Proto
 
@@ -68,6 +69,7 @@ def handle (ss : Session) (line : String) : Session × String :=
   | "fs" :: rest => (ss, FlagSrc.handleFs rest)
   | "dc" :: rest => (ss, Decode.handleDc rest)
   | "wt" :: rest => (ss, Watch.handleWt rest)
+  | "ez" :: rest => (ss, Ez.handleEz rest)
   | "rt" :: rest =>
     let (st, out) := Runtime.handleRt ss.rt rest
     ({ ss with rt := st }, (out.replace "\n" " "))
